@@ -53,17 +53,16 @@ func (f *Rplacd) Call(s *slip.Scope, args slip.List, depth int) (result slip.Obj
 	if args[1] == nil {
 		return list[:1]
 	}
+	// Limit the capacity so that append copies instead of writing over the
+	// elements that followed the first one, those are still the elements of
+	// the lists that were tails of this one.
+	if a2, ok2 := args[1].(slip.List); ok2 {
+		return append(list[:1:1], a2...)
+	}
 	if 1 < len(list) {
 		list = list[:2]
-		if a2, ok2 := args[1].(slip.List); ok2 {
-			list = append(list[:1], a2...)
-		} else {
-			list[1] = slip.Tail{Value: args[1]}
-		}
-	} else if a2, ok2 := args[1].(slip.List); ok2 {
-		list = append(list, a2...)
-	} else {
-		list = append(list, slip.Tail{Value: args[1]})
+		list[1] = slip.Tail{Value: args[1]}
+		return list
 	}
-	return list
+	return append(list[:1:1], slip.Tail{Value: args[1]})
 }
